@@ -100,12 +100,14 @@ Definition closes (t : list gevent) : nat := length (filter (fun e => match e wi
 Definition protos (t : list gevent) : list bool := flat_map (fun e => match e with GProto b => [b] | _ => [] end) t.
 
 (* ---- the model's view (Model/Session.v) of an observation ---- *)
-(* SVerified SAccepted: the session decides to send (it calls send_request());  SVerified (SChanged ..): it raises
-   CertificateChangedError;  SVerified SRefused: it raises ConnectionError itself (not `from` a library exception) *)
+(* SVerified SAccepted: tofu_db.verify returned is_valid = True - for a pinned host at once, on first use when tofu_db.trust has
+   returned (the model's check pins before it accepts);  SVerified (SChanged ..): the session raises CertificateChangedError;
+   SVerified SRefused: it raises ConnectionError itself (not `from` a library exception).  Sending is not a verdict. *)
 Definition sview (t : list gevent) : list sevent :=
   flat_map (fun e => match e with
                      | GWrite b => [SWrite b]
-                     | GSend => [SVerified SAccepted]
+                     | GVerify (true, m) => if eqb m (lit "first_use") then [] else [SVerified SAccepted]
+                     | GTrust => [SVerified SAccepted]
                      | GRaise (XChanged _ _ o n) => [SVerified (SChanged o n)]
                      | GRaise (XNew c) => if eqb c (lit "ConnectionError") then [SVerified SRefused] else []
                      | _ => []
